@@ -14,8 +14,8 @@ from .c10 import rand_hist_op
 
 class C11(Hist1Prop):
     ID = "C11"
-    N_QUICK = 500
-    N_THOROUGH = 12000
+    N_QUICK = 560
+    N_THOROUGH = 13500
     RULE = ("1-D histograms with 1-8 bins (gaps allowed, fixed-width binnings too), arbitrary contents / errors / under- / "
             "overflow, keep_missed on/off x index expression: int (incl. negative, out of range), slice with start/stop in "
             "[-n-2, n+2] or None (and steps 1, 2, -1, 0: refused), boolean mask (right / wrong length), integer index array or "
@@ -27,13 +27,27 @@ class C11(Hist1Prop):
             "normalize), then indexed again with the same and with other expressions (sizes follow the current bin count), "
             "1-3 rounds: every selection is compared with numpy indexing of the bins / contents / errors the object has at "
             "that moment. For a full tuple of integers on an N-d histogram (both streams) the returned edges are compared with the "
-            "bin's edges as well. non-trivial = the selection is a proper non-empty subset (history: after a change); distinct = "
-            "hash of the op list")
+            "bin's edges as well. After-the-selection stream (every 8th case; model too when the history stays in the driver's op "
+            "language, oracle only otherwise): a 1-D / 2-4-d source with at least one adaptive fixed-width axis (adaptive from the "
+            "start, switched on later for the whole histogram or axis by axis, mixed with static axes; also a projection or "
+            "transposition of such a histogram, and Polar / Cylindrical / Spherical(-Surface) histograms and their Radial / "
+            "Azimuthal projections) -> a chain of 1-3 selections (integer, slice, tuple of integers / slices / `:`, `:`-only "
+            "tuples, select(axis | name), Ellipsis, mask, index array / list; slice of a slice, slice then integer, several "
+            "axes at once) -> in-place calls on a result and / or on a source, each repeated on an independently built equal "
+            "histogram (rebuilt from the public arrays, or parsed from JSON): fill / fill_n beyond each axis in turn (adaptive "
+            "axes grow, also those the last selection did not slice), on the last edge, inside; merge_bins, *=, set_dtype, "
+            "normalize, set_adaptive in place.  After every call: every other live histogram reads exactly as before (bins of "
+            "every axis, contents, errors2, missed, shape, dtype, names, meta), the changed one is well formed and equals its "
+            "independent twin after the same call; every selection of the chain is judged like a single one. "
+            "non-trivial = the selection is a proper non-empty subset (history: after a change; after-stream: a selection "
+            "succeeded and an in-place call changed its target); distinct = hash of the op list")
     FIELDS = {"bins", "freq", "err2", "under", "over", "total", "dtype", "keep"}
 
     def gen_case(self, rng, k, tier):
         if k % 8 == 3:
             return history_gen_nd(rng) if rng.random() < 0.35 else history_gen_1d(rng)
+        if k % 8 == 6:
+            return after_gen_nd(rng) if rng.random() < 0.7 else after_gen_1d(rng)
         if rng.random() < 0.45:
             from . import nd_parts
             return nd_parts.c11_gen(rng)
@@ -84,6 +98,8 @@ class C11(Hist1Prop):
         from .. import impl1
         if case.get("history"):
             return history_run(case)
+        if case.get("after"):
+            return after_run(case)
         op = case["ops"][1]
         if op["op"] != "invalid" or case.get("kind") == "histn":
             io = super().run_impl(case)
@@ -109,6 +125,9 @@ class C11(Hist1Prop):
         return {"outs": outs, "log": log}
 
     def shrink_candidates(self, case):
+        if case.get("after"):
+            yield from after_shrink(case)
+            return
         if not case.get("history"):
             return
         ops, ns = case["ops"], case["nsetup"]
@@ -133,10 +152,23 @@ class C11(Hist1Prop):
 
     def model_case(self, case, io):
         # histories are outside the model's two-op language for this property: oracle only
+        if case.get("after"):
+            return after_model_case(case, io)
         return None if case.get("history") else case
+
+    def fields_for(self, case):
+        if case.get("after"):
+            return AFTER_FIELDS_ND if case.get("kind") == "histn" else AFTER_FIELDS_1D
+        return self.FIELDS
+
+    def neighbours(self, case):
+        if case.get("after"):
+            yield from after_neighbours(case)
 
     def tags(self, case, io):
         t = super().tags(case, io)
+        if case.get("after"):
+            return t + after_tags(case, io)
         if case.get("history"):
             seen = [o["before"]["bins"] for o in io["outs"] if "before" in o]
             if any(a != b for a, b in zip(seen, seen[1:])):
@@ -149,6 +181,8 @@ class C11(Hist1Prop):
     def oracle(self, case, io):
         if case.get("history"):
             return self.oracle_history(case, io)
+        if case.get("after"):
+            return self.oracle_after(case, io)
         if case.get("kind") == "histn":
             from . import nd_parts
             fails = nd_parts.c11_oracle(case, io)
@@ -261,8 +295,93 @@ class C11(Hist1Prop):
                 fails.append(f"{sig}: op {j} ({expr}after {changes} in-place changes of the same object):{rest}")
         return fails[:6]
 
+    def oracle_after(self, case, io):
+        """what happens AFTER the selection.  Every step of the (resolved) history is judged:
+        * a selection like a single selection, against the snapshot of its source taken immediately before it;
+        * every step: each live histogram the step does not write to reads exactly as before it (bins of every axis,
+          contents, errors2, missed, shape, dtype, names, meta) -- the source after the RESULT was changed in place, the
+          result (and every earlier selection of a chain) after the SOURCE was changed in place;
+        * the object that was changed is a well-formed histogram, and reads like an independently built equal histogram
+          (the twin: rebuilt from the public arrays / through JSON, so it cannot share anything) after the same call."""
+        outs, ops = io["outs"], io["resolved"]
+        fails = []
+        twin_ok = {}
+        rounded = False
+        for k, (op, o) in enumerate(zip(ops, outs)):
+            name = op["op"]
+            prev = outs[k - 1]["regs"] if k else []
+            cur = o["regs"]
+            what = after_text(op)
+            if k < io["_nsetup"]:
+                if o["ret"] == "REFUSED":
+                    return [f"refused_valid: setup refused ({what}): " + "; ".join(io["log"][:2])]
+                continue
+            rounded = rounded or name == "normalize"
+            writes = after_writes(op)
+            is_sel = name in AFTER_SEL_OPS
+            hreg = op.get("h")
+            src = prev[hreg] if hreg is not None and hreg < len(prev) else None
+            if src is None:
+                continue                # (a shrunk case: the register was never made -- nothing to judge)
+            # ---- (a) everything the step does not write to is what it was
+            for i, (x, y) in enumerate(zip(prev, cur)):
+                if i in writes or x is None or y is None or x is y or x == y:
+                    continue
+                ch = sorted(f for f in set(x) | set(y) if x.get(f) != y.get(f))
+                sig = "source_modified" if is_sel and i == hreg else "after_other_changed"
+                fails.append(f"{sig}: step {k} ({what}) changed register {i} ({io['_roles'].get(str(i), '?')}), which it does not "
+                             f"write to: fields {ch}; bins per axis {after_counts(x)} -> {after_counts(y)}, contents shape "
+                             f"{x.get('shape')} -> {y.get('shape')}")
+            # ---- well-formedness of whatever changed
+            for i, y in enumerate(cur):
+                x = prev[i] if i < len(prev) else None
+                if y is None or y is x:
+                    continue
+                for w in after_wellformed(y):
+                    fails.append(f"after_illformed: register {i} ({io['_roles'].get(str(i), '?')}) after step {k} ({what}): {w}")
+            # ---- the selection itself
+            if is_sel and name != "raw":
+                res = cur[op["out"]] if o["ret"] == "ok" and op.get("out") is not None and op["out"] < len(cur) else None
+                if o["ret"] == "ok" and res is None:
+                    continue
+                nd_src = "under" not in src
+                one = {"kind": "histn" if nd_src else "hist1", "ops": [None, op], "rounded": rounded}
+                ret = o["ret"]
+                if nd_src and res is not None and "under" in res:
+                    res = after_as_nd(res)          # a 1-D result of an N-d selection, read like the N-d ones
+                one_io = {"outs": [{"ret": "ok", "regs": [src]}, {"ret": ret, "regs": [cur[hreg], res]}], "log": o.get("_log", [])}
+                for f in self.oracle(one, one_io):
+                    sig, _, rest = f.partition(":")
+                    fails.append(f"{sig}: step {k} ({what}):{rest}")
+            # ---- (b) the twin
+            if name == "twin" and o["ret"] == "ok":
+                a, b = after_view(cur[hreg]), after_view(cur[op["out"]])
+                twin_ok[op["out"]] = a == b          # (an unequal twin is the twin builder's business: nothing is compared)
+            if "_twin_of" in op:
+                j = op["_twin_of"]
+                t = ops[j]["h"]
+                if twin_ok.get(hreg) and t < len(cur) and cur[t] is not None and cur[hreg] is not None:
+                    a, b = after_view(cur[t]), after_view(cur[hreg])
+                    if outs[j]["ret"] != o["ret"]:
+                        fails.append(f"after_differs_from_twin: step {j} ({after_text(ops[j])}) on register {t} "
+                                     f"({io['_roles'].get(str(t), '?')}) returned {outs[j]['ret']}, the same call on an independently "
+                                     f"built equal histogram {o['ret']}: " + "; ".join(o.get("_log", [])[:1] + outs[j].get("_log", [])[:1]))
+                        twin_ok[hreg] = False
+                    elif a != b:
+                        ch = sorted(f for f in a if a[f] != b[f])
+                        f0 = ch[0]
+                        fails.append(f"after_differs_from_twin: after step {j} ({after_text(ops[j])}) register {t} "
+                                     f"({io['_roles'].get(str(t), '?')}) differs from an independently built equal histogram after "
+                                     f"the same call in {ch}: {f0} {str(a[f0])[:160]} != {str(b[f0])[:160]}")
+                        twin_ok[hreg] = False
+            if len(fails) > 5:
+                break
+        return fails[:6]
+
     def nontrivial(self, case, io):
         o = io["outs"]
+        if case.get("after"):
+            return after_nontrivial(case, io)
         if case.get("history"):
             changed = False
             for j, x in enumerate(o):
@@ -621,6 +740,865 @@ def history_run(case):
         after = before if fingerprint(h) == mark_fp else snap(h)
         outs.append({"ret": ret, "op": cop, "before": before, "after": after, "res": res, "log": log[mark:]})
     return {"outs": outs, "log": log}
+
+
+# ------------------------------------------------------------------------------------------ after the selection
+# stream:after_selection.  The property says the source is never modified and the selection is a histogram (with exactly the
+# indexed bins / contents / errors): both have to stay true when the two objects are USED.  A case is
+#     setup (register 0; optionally a projection / transposition of it as the source)
+#     -> a chain of 1-3 selections (each into a register of its own; relative expressions, made concrete at run time)
+#     -> 1-2 phases: {"op": "twin"} builds an independent equal of the target (a result of the chain or a source), then
+#        in-place operations follow, each applied to the target and, with the same arguments, to the twin.
+# Values of fill / fill_n are placed relative to the bins the target has at that moment (outside one axis in turn, so that
+# adaptive axes must grow; inside; exactly on the last edge).  `after_run` writes the concrete ("resolved") op list, one
+# entry per call, with a snapshot of every register after every call; the oracle (C11.oracle_after) works on that list.
+# Cases that stay inside the op language of the Lean driver (plain Histogram1D only, or plain N-d only) are run on the model
+# too (the twin is `copy` there: an equal value).
+#
+# H[:] / H.select(axis, slice(None)) of an N-d histogram and h.select(0, slice(None)) of a 1-D one return the source OBJECT
+# itself (HistogramND.select / Histogram1D.select: `if index == slice(None) and not force_copy: return self`), so an in-place
+# operation on "the selection" changes the source.  Reported; these bare `:` forms are kept out of the stream until triaged
+# (the tuple forms H[:, :], H[:,] copy and are generated).
+ENABLE_IDENTITY_SELECTION = False
+
+AFTER_W = [1.0, 1.0, 1.0, 0.5, 2.0, 0.25, 0.1]
+AFTER_SEL_OPS = {"slice", "mask", "index_array", "item", "getitem", "select", "raw"}
+AFTER_INPLACE = {"fill", "fill_n", "merge", "imul", "idiv", "set_dtype", "normalize", "set_adaptive", "iadd", "isub"}
+AFTER_FIELDS_1D = {"bins", "freq", "err2", "under", "over", "inner", "total", "dtype", "keep", "adaptive"}
+AFTER_FIELDS_ND = {"bins", "shape", "freq", "err2", "missed", "total", "dtype", "keep", "names", "adaptive", "ndim"}
+# (b): what "equals" means between the changed object and its twin -- everything read through the public properties
+# except sums over all bins (`total`: a rounded sum after a normalisation) and the statistics record (not this property's)
+AFTER_NOT_COMPARED = {"total", "stats"}
+T_CLASSES = {"PolarHistogram": 2, "CylindricalHistogram": 3, "SphericalHistogram": 3, "SphericalSurfaceHistogram": 2,
+             "CylindricalSurfaceHistogram": 2}
+MODEL_CLASSES = {"hist1": {"Histogram1D"}, "histn": {"Histogram2D", "HistogramND"}}
+
+
+def after_view(snap):
+    return {k: v for k, v in snap.items() if k not in AFTER_NOT_COMPARED}
+
+
+def after_as_nd(snap):
+    """a 1-D snapshot in the layout of the N-d ones (bins / edges per axis)"""
+    return dict(snap, bins=[snap["bins"]], _numpy_bins=[snap.get("_numpy_bins")], ndim=1)
+
+
+def after_counts(snap):
+    b = snap.get("bins") or []
+    return [len(x) for x in b] if "under" not in snap else len(b)
+
+
+def after_writes(op):
+    name = op["op"]
+    if name in AFTER_INPLACE and (name not in ("merge", "normalize") or op.get("inplace")):
+        return {op["h"]}
+    return {op["out"]} if op.get("out") is not None else set()
+
+
+def after_text(op):
+    """the call of a resolved op, for the reader of a failure"""
+    try:
+        return _after_text(op)
+    except (KeyError, TypeError):        # (an op that could not be made concrete: its register was missing)
+        return f"{op['op']} on r{op.get('h')}"
+
+
+def _after_text(op):
+    name, h = op["op"], op.get("h")
+
+    def sl(a, b):
+        return f"{'' if a is None else a}:{'' if b is None else b}"
+
+    def sub(j):
+        return sl(*j["s"]) if isinstance(j, dict) else str(j)
+    if name == "slice":
+        return f"r{op['out']} = r{h}[{sl(op.get('start'), op.get('stop'))}]"
+    if name == "mask":
+        return f"r{op['out']} = r{h}[mask {''.join('1' if m else '0' for m in op['mask'])}]"
+    if name == "index_array":
+        return f"r{op['out']} = r{h}[{'list' if op.get('as_list') else 'array'} {op['idx']}]"
+    if name == "item":
+        return f"r{h}[{op['i']}]"
+    if name == "getitem":
+        body = ", ".join(sub(j) for j in op["index"])
+        return f"r{op.get('out')} = r{h}[{body}{'' if op.get('bare') or len(op['index']) > 1 else ','}]"
+    if name == "select":
+        return f"r{op['out']} = r{h}.select({op['axis']!r}, {sub(op['index'])})"
+    if name == "raw":
+        return f"r{op['out']} = r{h}[{op['what']}]"
+    if name == "twin":
+        return f"r{op['out']} = independent equal of r{h} ({op.get('_via', op.get('via'))})"
+    if name == "fill":
+        v = op["v"]
+        vv = [float(Fraction(x)) for x in v] if isinstance(v, list) else float(Fraction(v))
+        return f"r{h}.fill({vv}, {float(Fraction(op['w']))}{', transformed=True' if op.get('transformed') else ''})"
+    if name == "fill_n":
+        rows = op.get("rows") if "rows" in op else op.get("vs")
+        vv = [[float(Fraction(x)) for x in r] if isinstance(r, list) else float(Fraction(r)) for r in rows]
+        return f"r{h}.fill_n({vv}{'' if op.get('ws') is None else ', weights'}{', transformed=True' if op.get('transformed') else ''})"
+    if name == "merge":
+        return f"r{h}.merge_bins({op.get('amount')}, axis={op.get('axis')}, inplace=True)"
+    if name == "imul":
+        return f"r{h} *= {op['c']}"
+    if name == "set_dtype":
+        return f"r{h}.set_dtype({op['dtype']})"
+    if name == "normalize":
+        return f"r{h}.normalize(inplace=True{', percent=True' if op.get('percent') else ''})"
+    if name == "set_adaptive":
+        return f"r{h}.set_adaptive({op.get('value', True)}" + (f", axis {op['axis']})" if op.get("axis") is not None else ")")
+    return f"{name} -> r{op.get('out', h)}"
+
+
+def after_wellformed(snap):
+    """a histogram: one content and one squared error per bin (cell), arrays of the histogram's dtype, rising bins"""
+    if "under" not in snap:
+        from . import nd_parts
+        return [w for w in nd_parts.c18_wellformed(snap) if not w.startswith("negative_")]
+    out = []
+    n = len(snap["bins"])
+    if not snap["_shape_ok"] or len(snap["freq"]) != n or len(snap["err2"]) != n:
+        out.append(f"shape: {n} bins, {len(snap['freq'])} contents, {len(snap['err2'])} squared errors")
+    bins = [(Fraction(l), Fraction(r)) for l, r in snap["bins"]]
+    if any(l >= r for l, r in bins) or any(bins[i][1] > bins[i + 1][0] for i in range(len(bins) - 1)):
+        out.append("bins_not_rising")
+    if snap["_freq_dtype"] != snap["dtype"] or snap["_err2_dtype"] != snap["dtype"]:
+        out.append(f"dtype_mismatch: dtype {snap['dtype']} over {snap['_freq_dtype']}/{snap['_err2_dtype']} arrays")
+    if not edges_ok(snap["bins"], snap.get("_numpy_bins")):
+        out.append(f"edges_differ: numpy_bins {snap['_numpy_bins']} are not the edges of the bins {snap['bins']}")
+    return out
+
+
+def edges_ok(bins, numpy_bins):
+    from ..impl1 import edges_consistent
+    return edges_consistent(bins, numpy_bins)
+
+
+def after_snap(x):
+    """snap1 for 1-D objects, snapn for N-d ones, plus what the two leave out"""
+    from .. import impl1, implnd
+    if x.ndim == 1 and hasattr(x, "underflow"):
+        s = impl1.snap1(x)
+        s["names"] = [str(n) for n in x.axis_names]
+        s["shape"] = [int(v) for v in x.shape]
+        s["_class"] = type(x).__name__
+    else:
+        s = implnd.snapn(x)
+        s["_axes"] = [impl1.binning_meta(b) for b in x.binnings]
+    return s
+
+
+# ---- generators
+
+def _after_slice(rng):
+    """a slice relative to the bin count n the axis has when it is evaluated: non-empty (start = p mod n, at least one bin),
+    an end that coincides with the end of the axis left open on request, ends counted from the right on request; one in
+    eight with arbitrary small ends (empty selections among them)"""
+    if rng.random() < 0.125:
+        c = [None, None] + list(range(-5, 7))
+        a, b = rng.choice(c), rng.choice(c)
+        if a is None and b is None:
+            b = rng.choice([1, 2, -1])
+        return {"wild": [a, b]}
+    return {"p": rng.randint(0, 59), "q": rng.randint(0, 59), "np": rng.random() < 0.25, "nq": rng.random() < 0.25,
+            "open": rng.choice(["", "", "a", "b", "ab"])}
+
+
+def _after_slice_ends(sr, n):
+    if "wild" in sr:
+        return list(sr["wild"])
+    if n == 0:
+        return [0, None]
+    a = sr["p"] % n
+    b = a + 1 + sr["q"] % (n - a)
+    ra = None if (a == 0 and "a" in sr["open"]) else (a - n if sr["np"] else a)
+    rb = None if (b == n and "b" in sr["open"]) else (b - n if sr["nq"] and b < n else b)
+    if ra is None and rb is None:
+        rb = n          # (the bare `:` is a form of its own: ENABLE_IDENTITY_SELECTION)
+    return [ra, rb]
+
+
+def _after_sub(rng, colon=0.2):
+    r = rng.random()
+    if r < colon:
+        return {"s": [None, None]}
+    if r < colon + 0.3:
+        return {"i": rng.randint(0, 59), "neg": rng.random() < 0.3, "oob": False}
+    return {"sr": _after_slice(rng)}
+
+
+def after_sel_1d(rng):
+    kind = rng.choice(["slice"] * 5 + ["mask"] * 2 + ["array"] * 2 + ["int", "ellipsis"])
+    if kind == "slice":
+        return {"op": "slice", "sr": _after_slice(rng)}
+    if kind == "mask":
+        return {"op": "mask", "pat": [True] + [rng.random() < 0.6 for _ in range(rng.randint(0, 4))], "dn": 0}
+    if kind == "array":
+        m = rng.randint(1, 4)
+        return {"op": "index_array", "rel": [{"i": rng.randint(0, 59), "neg": rng.random() < 0.3, "oob": False} for _ in range(m)],
+                "as_list": rng.random() < 0.3}
+    if kind == "int":
+        return {"op": "item", "rel": {"i": rng.randint(0, 59), "neg": rng.random() < 0.3, "oob": False}}
+    return {"op": "raw", "what": "..."}
+
+
+def after_sel_nd(rng, d):
+    kind = rng.choice(["tuple"] * 6 + ["bare"] * 2 + ["select"] * 2 + ["colons", "ellipsis"])
+    if kind == "tuple":
+        m = rng.randint(1, d)
+        rel = [_after_sub(rng) for _ in range(m)]
+        if all(r.get("s") == [None, None] for r in rel):
+            rel[rng.randrange(m)] = _after_sub(rng, colon=0)
+        return {"op": "getitem", "rel": rel}
+    if kind == "bare":
+        return {"op": "getitem", "rel": [_after_sub(rng, colon=0.15 if ENABLE_IDENTITY_SELECTION else 0)], "bare": True}
+    if kind == "select":
+        return {"op": "select", "_axis": rng.randrange(4), "by_name": rng.random() < 0.3,
+                "rel": _after_sub(rng, colon=0.15 if ENABLE_IDENTITY_SELECTION else 0)}
+    if kind == "colons":
+        return {"op": "getitem", "rel": [{"s": [None, None]} for _ in range(rng.randint(1, d))]}
+    return {"op": "raw", "what": rng.choice(["...", "..., 0:1", "0:1, ..."])}
+
+
+def after_result_dim(op, d):
+    """number of axes of the histogram a selection from a d-dimensional one gives (0: a value; None: N-d Ellipsis, refused)"""
+    if d == 1:
+        return 0 if op["one"]["op"] == "item" else 1
+    nd = op["nd"]
+    if nd["op"] == "raw":
+        return None
+    subs = [nd["rel"]] if nd["op"] == "select" else nd["rel"][:d]
+    return d - sum(1 for r in subs if "i" in r)
+
+
+def after_sel(rng, h, out, d):
+    """one selection, relative: `one` is used when the register holds a 1-D histogram at that moment, `nd` otherwise"""
+    op = {"op": "sel", "h": h, "out": out, "one": after_sel_1d(rng)}
+    if d is not None:
+        op["nd"] = after_sel_nd(rng, d)
+    return op
+
+
+def _after_place(rng, out_share=0.75):
+    """where a filled value lies relative to the bins the target has when it is filled: outside of (at most two) axes --
+    `j` quarter bin widths to the left of the first / beyond the last edge (right, j = 0: exactly on the last edge) -- and
+    in the middle of some bin of every other axis"""
+    out = []
+    if rng.random() < out_share:
+        for _ in range(rng.choice([1, 1, 1, 1, 2])):
+            side = rng.choice(["left", "right"])
+            out.append({"axis": rng.randrange(12), "side": side, "j": rng.randint(1, 8) if side == "left" else rng.randint(0, 7)})
+    return {"out": out, "in": [rng.randint(0, 59) for _ in range(4)]}
+
+
+def after_mutation(rng, t, tw, state):
+    r = rng.random()
+    if r < 0.42:
+        wt, wk = rng.choice([(1, "pyint"), (1, "pyint"), (2, "pyint"), (0.5, "pyfloat")])
+        state["fractional"] = state.get("fractional") or wt == 0.5
+        return {"op": "fill", "h": t, "tw": tw, "place": _after_place(rng), "w": rs(wt), "wk": wk,
+                "default_w": wt == 1 and rng.random() < 0.5}
+    if r < 0.64:
+        n = rng.randint(1, 3)
+        ws = None if rng.random() < 0.6 else [rs(rng.randint(0, 8) / 2) for _ in range(n)]
+        state["fractional"] = state.get("fractional") or ws is not None
+        return {"op": "fill_n", "h": t, "tw": tw, "places": [_after_place(rng, 0.6) for _ in range(n)], "ws": ws,
+                "wkind": None if ws is None else "float64"}
+    if r < 0.74:
+        return {"op": "merge", "h": t, "tw": tw, "amount": rng.randint(1, 3), "inplace": True, "axis": rng.choice([None, 0, 1, 2])}
+    if r < 0.78:
+        return {"op": "set_adaptive", "h": t, "tw": tw, "value": True, "axis": rng.choice([None, 0, 1, 2])}
+    op = _scalar_change(rng, state)
+    while op["op"] == "idiv":
+        op = _scalar_change(rng, state)
+    if op["op"] == "imul" and "/" in op["c"]:
+        state["fractional"] = True
+    if op["op"] == "set_dtype" and state.get("rounded"):
+        op["dtype"] = "float64"      # (whether a rounded quotient is integral is not pinned: DESIGN 9.4)
+    if op["op"] == "set_dtype" and state.get("fractional") and op["dtype"].startswith("int"):
+        # contents / missed weights that may be fractional: what an integer type makes of them is C13's subject
+        op["dtype"] = {"int64": "float64", "int32": "float32"}[op["dtype"]]
+    op.update({"h": t, "tw": tw})
+    return op
+
+
+def after_phases(rng, ops, sources, results, first_free):
+    """1-2 phases of in-place operations: on the last result of the chain, on a source, on an earlier result"""
+    state = {"fractional": any(o.get("ws") is not None or o.get("dtype") in ("float32", "float64") and o["op"] == "of_arrays"
+                               for o in ops)}
+    plan = rng.choice([["R"], ["R"], ["S"], ["S"], ["R", "S"], ["S", "R"], ["M"]])
+    reg = first_free
+    for who in plan:
+        if who == "R":
+            t = results[-1] if results else sources[-1]
+        elif who == "S":
+            t = sources[-1] if rng.random() < 0.8 else sources[0]
+        else:
+            t = rng.choice(results[:-1]) if len(results) > 1 else (results[-1] if results else sources[-1])
+        ops.append({"op": "twin", "h": t, "out": reg, "via": rng.choice(["arrays", "arrays", "json"])})
+        if rng.random() < 0.25:
+            # every axis in turn: one value beyond each axis of the target
+            side = rng.choice(["left", "right"])
+            for a in range(3):
+                ops.append({"op": "fill", "h": t, "tw": reg, "w": "1", "wk": "pyint", "default_w": True, "sweep": True,
+                            "place": {"out": [{"axis": a, "side": side, "j": rng.randint(1, 6)}], "in": [rng.randint(0, 59) for _ in range(4)]}})
+        for _ in range(rng.randint(1, 3)):
+            ops.append(after_mutation(rng, t, reg, state))
+        reg += 1
+
+
+def after_gen_1d(rng):
+    style = rng.choice(["adaptive"] * 5 + ["later"] * 3 + ["fixed", "static"])
+    ops = []
+    if style == "static":
+        pairs, t = gen1.rising_bins(rng)
+        while t["tiny_gap"]:             # (gaps below the allclose tolerance of is_consecutive: DESIGN 9.4)
+            pairs, t = gen1.rising_bins(rng)
+        ops.append(rand_hist_op(rng, pairs, out=0))
+    else:
+        w = rng.choice(AFTER_W)
+        tmin, cnt = rng.randint(-3, 3), rng.randint(1, 4)
+        ops.append({"op": "empty", "out": 0, "keep": rng.random() < 0.85, "dtype": rng.choice([None, None, "float64", "int32"]),
+                    "binning": gen1.fixed_json(w, tmin, cnt, adaptive=style == "adaptive")})
+        where = ["in"] * 5 + ["left", "right"]
+        vs = [_vals(rng, tmin * w, (tmin + cnt) * w, w, rng.choice(where)) for _ in range(rng.randint(0, 5))]
+        ws = None if rng.random() < 0.6 else [rs(rng.randint(0, 8) / 2) for _ in vs]
+        ops.append({"op": "fill_n", "h": 0, "vs": gen1.enc_vals(vs), "ws": ws, "wkind": None if ws is None else "float64"})
+        if style == "later":
+            ops.append({"op": "set_adaptive", "h": 0, "value": True})
+    ns = len(ops)
+    results, reg = [], 1
+    for step_no in range(rng.choice([1, 1, 1, 2, 2, 3])):
+        op = after_sel(rng, results[-1] if results else 0, reg, None)
+        if op["one"]["op"] == "item" and step_no == 0 and rng.random() < 0.7:
+            op["one"] = {"op": "slice", "sr": _after_slice(rng)}
+        ops.append(op)
+        if op["one"]["op"] == "item":
+            break                               # (bin edges and a content: no histogram to go on with)
+        results.append(reg)
+        reg += 1
+    after_phases(rng, ops, [0], results, reg)
+    return {"kind": "hist1", "after": True, "nsetup": ns, "ops": ops, "tolerance": True,
+            "tags": ["stream:after_selection", "stream:after_selection/1d", "after:1d", "style:" + style]}
+
+
+def after_gen_nd(rng):
+    from .. import gennd
+    style = rng.choice(["adaptive"] * 5 + ["mixed"] * 3 + ["later"] * 2 + ["static"])
+    klass = rng.choice(sorted(T_CLASSES)) if rng.random() < 0.2 else None
+    derived = None if klass or rng.random() < 0.7 else rng.choice(["projection", "projection", "T"])
+    d = T_CLASSES[klass] if klass else rng.choice([2, 2, 2, 3])
+    d0 = d + 1 if derived == "projection" else (2 if derived == "T" else d)
+    if derived == "T":
+        d = 2
+    axes, spans, widths = [], [], []
+    for a in range(d0):
+        fixed = style in ("adaptive", "later") or (style == "mixed" and (a == 0 or rng.random() < 0.5))
+        if fixed:
+            w = rng.choice(AFTER_W)
+            tmin, cnt = rng.randint(-3, 3), rng.randint(1, 3)
+            axes.append(gen1.fixed_json(w, tmin, cnt, adaptive=style != "later"))
+            spans.append([tmin * w, (tmin + cnt) * w])
+        else:
+            b, pairs, _ = gennd.axis_binning(rng, maxbins=3, allow_fixed=True)
+            w = (pairs[-1][1] - pairs[0][0]) / len(pairs)
+            axes.append(b)
+            spans.append([pairs[0][0], pairs[-1][1]])
+        widths.append(w)
+    names = [f"ax{i}" for i in range(d0)] if rng.random() < 0.5 and not klass else None
+    ops = [{"op": "empty_t" if klass else "empty", "out": 0, "axes": axes, "names": names, "keep": rng.random() < 0.85,
+            "dtype": rng.choice([None, None, "float64", "int32"])}]
+    if klass:
+        ops[0]["klass"] = klass
+    rows = [[_vals(rng, spans[a][0], spans[a][1], widths[a], rng.choice(["in"] * 6 + ["left", "right"])) for a in range(d0)]
+            for _ in range(rng.randint(0, 5))]
+    ws = None if rng.random() < 0.6 else [rs(rng.randint(0, 8) / 2) for _ in rows]
+    ops.append({"op": "fill_n", "h": 0, "rows": gennd.enc_rows(rows), "ws": ws, "wkind": None if ws is None else "float64"})
+    if klass:
+        ops[-1]["transformed"] = True
+    if style == "later":
+        # adaptivity switched on after the first values (the whole histogram, or axis by axis through the binning objects)
+        if rng.random() < 0.5:
+            ops.append({"op": "set_adaptive", "h": 0, "value": True})
+        else:
+            for a in rng.sample(range(d0), rng.randint(1, d0)):
+                ops.append({"op": "set_adaptive", "h": 0, "value": True, "axis": a})
+    sources = [0]
+    if derived == "projection":
+        keep = rng.sample(range(d0), d)
+        if rng.random() < 0.6:
+            keep.sort()
+        ops.append({"op": "projection", "h": 0, "axes": keep, "out": 1})
+        sources.append(1)
+    elif derived == "T":
+        ops.append({"op": "T", "h": 0, "out": 1})
+        sources.append(1)
+    elif klass and rng.random() < 0.3:
+        keep = sorted(rng.sample(range(d0), rng.randint(1, d0 - 1)))     # RadialHistogram, AzimuthalHistogram, ... or plain
+        ops.append({"op": "projection", "h": 0, "axes": keep, "out": 1})
+        sources.append(1)
+        derived = "projection"
+    ns = len(ops)
+    results, reg = [], len(sources)
+    cur, dim = sources[-1], (len(ops[-1]["axes"]) if ops[-1]["op"] == "projection" else d)
+    for _ in range(rng.choice([1, 1, 1, 2, 2, 3])):
+        op = after_sel(rng, cur, reg, dim)
+        ops.append(op)
+        left = after_result_dim(op, dim)
+        if left:                    # (otherwise a value or a refused form: a side branch, the chain goes on from `cur`)
+            results.append(reg)
+            cur, dim = reg, left
+        reg += 1
+    after_phases(rng, ops, sources, results, reg)
+    tags = ["stream:after_selection", "stream:after_selection/nd", "after:nd", "nd", f"d:{d}", "style:" + style]
+    if klass:
+        tags += ["after:transformed", "stream:after_selection/transformed_class"]
+    if derived:
+        tags += ["after:source_is_" + derived, "stream:after_selection/source_is_projection_or_T"]
+    return {"kind": "histn", "after": True, "nsetup": ns, "ops": ops, "tolerance": True, "tags": tags}
+
+
+# ---- running
+
+def _is_1d(x):
+    return x.ndim == 1 and hasattr(x, "underflow")
+
+
+def _is_transformed(x):
+    return hasattr(x, "transform")
+
+
+def after_concrete_sel(op, x):
+    """the selection in the op language of the object the register holds now"""
+    if _is_1d(x):
+        rel = op["one"]
+        if rel["op"] == "raw":
+            return {"op": "raw", "h": op["h"], "out": op["out"], "what": "..."}
+        n = int(x.shape[0])
+        if "sr" in rel:
+            a, b = _after_slice_ends(rel["sr"], n)
+            rel = {"op": "slice", "start": a, "stop": b}
+        cop = concrete_1d(dict(rel, h=op["h"], out=op["out"]), n)
+        if cop["op"] == "item":
+            cop.pop("out", None)
+        return cop
+    rel = op["nd"]
+    shape = [int(v) for v in x.shape]
+
+    def ends(r, n):
+        return {"s": _after_slice_ends(r["sr"], n)} if "sr" in r else r
+    if rel["op"] == "raw":
+        return {"op": "raw", "h": op["h"], "out": op["out"], "what": rel["what"]}
+    if rel["op"] == "select":
+        ax = rel["_axis"] % len(shape)
+        r = dict(rel, h=op["h"], out=op["out"], _axis=ax, axis=str(x.axis_names[ax]) if rel.get("by_name") else ax,
+                 rel=ends(rel["rel"], shape[ax]))
+        r.pop("by_name", None)
+        return concrete_nd(r, shape)
+    r = dict(rel, h=op["h"], out=op["out"], rel=[ends(q, shape[i]) for i, q in enumerate(rel["rel"][:len(shape)])])
+    return concrete_nd(r, shape)
+
+
+def _place_value(place, x):
+    """the coordinates (in the space of the bins) of one value, relative to the bins of x now"""
+    bins = [np.asarray(x.bins).reshape(-1, 2)] if _is_1d(x) else [np.asarray(b).reshape(-1, 2) for b in x.bins]
+    d = len(bins)
+    out = {}
+    for e in place["out"]:
+        out.setdefault(e["axis"] % d, e)
+    v = []
+    for a, b in enumerate(bins):
+        if len(b) == 0:
+            v.append(place["in"][a] % 7 / 4)
+            continue
+        q = (float(b[0][1]) - float(b[0][0])) / 4
+        e = out.get(a)
+        if e is None:
+            l, r = b[place["in"][a] % len(b)]
+            v.append((float(l) + float(r)) / 2)
+        elif e["side"] == "left":
+            v.append(float(b[0][0]) - q * e["j"])
+        else:
+            v.append(float(b[-1][1]) + q * e["j"])
+    return v
+
+
+def after_resolve(op, x):
+    """the in-place operation with concrete arguments, in the op language of the object (1-D / N-d)"""
+    name = op["op"]
+    cop = {k: v for k, v in op.items() if k not in ("tw", "place", "places", "sweep")}
+    one = _is_1d(x)
+    if name == "fill":
+        v = _place_value(op["place"], x)
+        cop["v"] = rs(v[0]) if one else [rs(t) for t in v]
+    elif name == "fill_n":
+        rows = [_place_value(p, x) for p in op["places"]]
+        if one:
+            cop["vs"] = [rs(r[0]) for r in rows]
+        else:
+            cop["rows"] = [[rs(t) for t in r] for r in rows]
+    elif name in ("merge", "set_adaptive"):
+        ax = cop.pop("axis", None)
+        if not one and ax is not None:
+            cop["axis"] = ax % x.ndim
+    if name in ("fill", "fill_n") and _is_transformed(x):
+        cop["transformed"] = True
+    return cop
+
+
+def after_apply(s, cop, log):
+    """one in-place call on the register cop['h'] (step functions of the 1-D / N-d op languages; transformed classes take
+    the values in the space of their bins)"""
+    from .. import impl1, implnd
+    x = s.get(cop["h"]) if cop["h"] < len(s.regs) else None
+    if x is None:
+        log.append(f"{cop['op']}: no histogram in register {cop['h']}")
+        return "REFUSED"
+    if cop.get("transformed"):
+        try:
+            if cop["op"] == "fill":
+                v = impl1.fl(cop["v"]) if _is_1d(x) else [impl1.fl(t) for t in cop["v"]]
+                w = impl1.num_of(cop["w"], cop["wk"])
+                ix = x.fill(v, transformed=True) if cop.get("default_w") and w == 1 else x.fill(v, w, transformed=True)
+                if ix is None:
+                    return None
+                return impl1.fb_json(ix, x) if _is_1d(x) else [int(i) for i in ix]
+            ws = None if cop.get("ws") is None else impl1.arr(cop["ws"], np.dtype(cop.get("wkind") or "float64"))
+            if _is_1d(x):
+                x.fill_n(impl1.arr(cop["vs"]), ws, transformed=True)
+            else:
+                x.fill_n(implnd.rows_arr(cop["rows"], x.ndim), ws, transformed=True)
+            return "ok"
+        except Exception as e:
+            log.append(f"{cop['op']}: {type(e).__name__}: {e}"[:200])
+            return "REFUSED"
+    return (impl1.step if _is_1d(x) else implnd.step)(s, cop, log)
+
+
+def twin_way(x, via):
+    binnings = [x.binning] if _is_1d(x) else list(x.binnings)
+    if via == "json" and all((b.includes_right_edge is False) if type(b).__name__ == "FixedWidthBinning" else
+                             (b.includes_right_edge is True) for b in binnings):
+        return "json"
+    return "arrays"
+
+
+def build_twin(x, via):
+    """an equal histogram that cannot share anything with x: parsed back from its JSON document, or constructed anew from
+    copies of the public arrays and binnings rebuilt from their public description.  (The JSON document does not carry
+    `includes_right_edge`: that way is taken only when reading it back gives the same flags.)  Returns (twin, way taken)."""
+    import copy as _copy
+    from physt import io as _io
+    from physt.binnings import FixedWidthBinning, NumpyBinning, StaticBinning
+    binnings = [x.binning] if _is_1d(x) else list(x.binnings)
+    if twin_way(x, via) == "json":
+        return _io.parse_json(x.to_json()), "json"
+
+    def nb(b):
+        kind = type(b).__name__
+        if kind == "FixedWidthBinning":
+            d = b.to_dict()
+            kw = dict(bin_width=d["bin_width"], bin_count=d["bin_count"], bin_shift=d["bin_shift"], adaptive=d["adaptive"],
+                      includes_right_edge=b.includes_right_edge)
+            if d["bin_count"] > 0:
+                kw["bin_times_min"] = d["bin_times_min"]
+            return FixedWidthBinning(**kw)
+        if kind == "NumpyBinning":
+            return NumpyBinning(np.array(b.numpy_bins, dtype=float, copy=True), includes_right_edge=b.includes_right_edge)
+        return StaticBinning(np.array(b.bins, dtype=float, copy=True).reshape(-1, 2), includes_right_edge=b.includes_right_edge)
+    meta = {str(k): _copy.deepcopy(v) for k, v in x.meta_data.items() if k != "axis_names"}
+    f, e = np.array(x.frequencies, copy=True), np.array(x.errors2, copy=True)
+    if _is_1d(x):
+        t = type(x)(nb(binnings[0]), f, e, keep_missed=x.keep_missed, underflow=x.underflow, overflow=x.overflow,
+                    inner_missed=x.inner_missed, dtype=x.dtype, axis_name=x.axis_name, **meta)
+    else:
+        t = type(x)([nb(b) for b in binnings], f, errors2=e, keep_missed=x.keep_missed, missed=x.missed, dtype=x.dtype,
+                    axis_names=list(x.axis_names), **meta)
+    return t, "arrays"
+
+
+RAW_INDEX = {"...": Ellipsis, "..., 0:1": (Ellipsis, slice(0, 1)), "0:1, ...": (slice(0, 1), Ellipsis)}
+
+
+def after_exec(s, cop, log, kind):
+    """one resolved op on the registers; the value it returns in the op language"""
+    from .. import impl1, implnd
+    name = cop["op"]
+    x = s.regs[cop["h"]] if cop.get("h") is not None and cop["h"] < len(s.regs) else None
+    if name == "empty_t":
+        try:
+            from physt import special_histograms
+            axes = [impl1.mk_binning(b) for b in cop["axes"]]
+            s.set(cop["out"], getattr(special_histograms, cop["klass"])(axes, keep_missed=cop.get("keep", True),
+                                                                         dtype=impl1.np_dtype(cop.get("dtype"))))
+            return "ok"
+        except Exception as e:
+            log.append(f"{name}: {type(e).__name__}: {e}"[:200])
+            return "REFUSED"
+    if "h" in cop and x is None:
+        log.append(f"{name}: no histogram in register {cop['h']}")
+        return "REFUSED"
+    if name == "raw":
+        try:
+            r = x[RAW_INDEX[cop["what"]]]
+            if hasattr(r, "frequencies"):
+                s.set(cop["out"], r)
+                return "ok"
+            return "value"
+        except Exception as e:
+            log.append(f"raw: {type(e).__name__}: {e}"[:200])
+            return "REFUSED"
+    if name == "twin":
+        try:
+            t, _ = build_twin(x, cop.get("_via") or cop.get("via", "arrays"))
+            s.set(cop["out"], t)
+            return "ok"
+        except Exception as e:       # the builder could not make one: nothing is compared with it
+            log.append(f"twin: {type(e).__name__}: {e}"[:200])
+            return "REFUSED"
+    if name in AFTER_SEL_OPS:
+        ret = (impl1.step if _is_1d(x) else implnd.step)(s, cop, log)
+        if isinstance(ret, dict) and not _is_1d(x):
+            ret["_bin"] = nd_item_bin(x, cop["index"])
+        return ret
+    if name in AFTER_INPLACE and x is not None:
+        return after_apply(s, cop, log)
+    return (impl1.step if kind == "hist1" else implnd.step)(s, cop, log)
+
+
+def after_unobserved(case, resolved):
+    """the same (resolved) history on fresh objects WITHOUT reading anything between the calls: only the state after the last
+    call is observed (reading a histogram must not be what keeps it, or a histogram derived from it, right)"""
+    from .. import impl1
+    s = impl1.Store()
+    log: list = []
+    ret = None
+    for cop in resolved:
+        mark = len(log)
+        ret = after_exec(s, cop, log, case["kind"])
+    return {"ret": ret, "regs": [None if x is None else after_snap(x) for x in s.regs], "_log": log[mark:] if resolved else []}
+
+
+def after_run(case):
+    from .. import impl1, implnd
+    s = impl1.Store()
+    log, outs, resolved = [], [], []
+    cache = {}
+    roles = {}
+    classes = set()
+    modelled = True
+
+    def snaps():
+        out = []
+        for i, x in enumerate(s.regs):
+            if x is None:
+                out.append(None)
+                continue
+            classes.add(type(x).__name__)
+            key = (id(x), type(x).__name__, fingerprint(x), impl1.meta_repr(x))
+            if i not in cache or cache[i][0] != key:
+                cache[i] = (key, after_snap(x))
+            out.append(cache[i][1])
+        return out
+
+    def emit(cop, ret, mark, **extra):
+        resolved.append(cop)
+        outs.append({"ret": ret, "regs": snaps(), "_log": log[mark:], **extra})
+
+    nsetup = None
+    kind = case["kind"]
+    for k, op in enumerate(case["ops"]):
+        if k == case["nsetup"]:
+            nsetup = len(resolved)
+        name = op["op"]
+        mark = len(log)
+        x = s.regs[op["h"]] if op.get("h") is not None and op["h"] < len(s.regs) else None
+        if "h" in op and x is None:
+            # (only in shrunk cases / after a refused selection: the register was never made)
+            modelled = False
+            cop = {"op": "getitem", "h": op["h"], "out": op["out"], "index": [0]} if name == "sel" else \
+                {k2: v for k2, v in op.items() if k2 not in ("tw", "place", "places", "sweep")}
+            emit(cop, after_exec(s, cop, log, kind), mark)
+            continue
+        if name == "sel":
+            cop = after_concrete_sel(op, x)
+            if cop["op"] == "raw":
+                modelled = False
+            ret = after_exec(s, cop, log, kind)
+            extra = {"_same_object": True} if ret == "ok" and s.get(cop["out"]) is x else {}
+            if cop.get("out") is not None:
+                roles[str(cop["out"])] = "the selection " + after_text(cop).split(" = ", 1)[-1]
+            emit(cop, ret, mark, **extra)
+        elif name == "twin":
+            cop = dict(op, _via=twin_way(x, op.get("via", "arrays")))
+            roles[str(op["out"])] = f"an independently built equal of register {op['h']}"
+            emit(cop, after_exec(s, cop, log, kind), mark)
+        elif "tw" in op:
+            cop = after_resolve(op, x)
+            if name == "set_adaptive" or cop.get("transformed"):
+                modelled = False
+            j = len(resolved)
+            emit(cop, after_exec(s, cop, log, kind), mark)
+            mark = len(log)
+            cop2 = dict(cop, h=op["tw"], _twin_of=j)
+            emit(cop2, after_exec(s, cop2, log, kind), mark)
+        else:
+            if name in ("set_adaptive", "empty_t") or op.get("transformed"):
+                modelled = False
+            ret = after_exec(s, op, log, kind)
+            if op.get("out") is not None:
+                roles[str(op["out"])] = (f"a {op['klass']}" if name == "empty_t" else
+                                          "the source" if name in ("empty", "of_arrays") else
+                                          f"the {name} of register {op.get('h')}" + (f" on axes {op['axes']}" if "axes" in op else ""))
+            emit(op, ret, mark)
+    if nsetup is None:
+        nsetup = len(resolved)
+    if not classes <= MODEL_CLASSES[case["kind"]]:
+        modelled = False
+    if any(r is not None and 0 in r["shape"] for o in outs for r in o["regs"]):
+        modelled = False            # histograms without bins on some axis: how calls on them end is nobody's clause
+    io = {"outs": outs, "log": log, "resolved": resolved, "_nsetup": nsetup, "_roles": roles, "_modelled": modelled,
+          "_classes": sorted(classes)}
+    if len(resolved) >= 2:
+        io["unobserved_outs"] = outs[:-1] + [after_unobserved(case, resolved)]
+    return io
+
+
+def after_model_case(case, io):
+    """the resolved history in the driver's op language (the twin is an equal value there: `copy`); None when the history
+    leaves that language (transformed classes, 1-D results of N-d selections, set_adaptive, Ellipsis)"""
+    if not io.get("_modelled"):
+        return None
+    ops = []
+    for op in io["resolved"]:
+        if op["op"] == "twin":
+            ops.append({"op": "copy", "h": op["h"], "out": op["out"]})
+        else:
+            ops.append({k: v for k, v in op.items() if not k.startswith("_") or k == "_axis"})
+    return {"kind": case["kind"], "ops": ops}
+
+
+def after_tags(case, io):
+    t = []
+    ops, outs = io["resolved"], io["outs"]
+    t.append("after:modelled" if io.get("_modelled") else "after:oracle_only")
+    nsel = sum(1 for op in ops[io["_nsetup"]:] if op["op"] in AFTER_SEL_OPS)
+    if nsel > 1:
+        t.append("after:chain")
+    twins = {}
+    for k, (op, o) in enumerate(zip(ops, outs)):
+        if k and op["op"] == "twin" and o["ret"] == "ok":
+            a, b = o["regs"][op["h"]], o["regs"][op["out"]]
+            twins[op["out"]] = op["h"]
+            t.append(f"after:twin_{op.get('_via')}")
+            if after_view(a) != after_view(b):
+                t.append("after:twin_unequal_at_creation")
+            t.append("after:target_is_selection" if "selection" in io["_roles"].get(str(op["h"]), "") else "after:target_is_source")
+        if "tw" not in op and "_twin_of" not in op and op["op"] in AFTER_INPLACE and k >= io["_nsetup"]:
+            h = op["h"]
+            x = outs[k - 1]["regs"][h] if h < len(outs[k - 1]["regs"]) else None
+            y = o["regs"][h] if h < len(o["regs"]) else None
+            if x is not None and y is not None:
+                if after_counts(x) != after_counts(y) and op["op"] in ("fill", "fill_n"):
+                    t.append("after:target_grew")
+                if o["ret"] == "REFUSED":
+                    t.append("after:inplace_refused")
+        if o.get("_same_object"):
+            t.append("after:selection_is_the_source_object")
+    return sorted(set(t))
+
+
+def after_nontrivial(case, io):
+    """a selection produced a histogram and an in-place operation really changed its target afterwards"""
+    ops, outs = io["resolved"], io["outs"]
+    sel = any(op["op"] in AFTER_SEL_OPS and o["ret"] == "ok" for op, o in zip(ops, outs))
+    changed = False
+    for k in range(max(io["_nsetup"], 1), len(ops)):
+        op = ops[k]
+        if op["op"] in AFTER_INPLACE and "_twin_of" not in op:
+            h = op["h"]
+            a, b = outs[k - 1]["regs"], outs[k]["regs"]
+            if h < len(a) and h < len(b) and a[h] is not None and a[h] != b[h]:
+                changed = True
+    return sel and changed
+
+
+def after_shrink(case):
+    ops, ns = case["ops"], case["nsetup"]
+    used = lambda r, frm: any(o.get("h") == r or o.get("tw") == r for o in ops[frm:])      # noqa: E731
+    # a whole phase (the twin and the calls made on it and on its target)
+    for k in range(len(ops) - 1, ns - 1, -1):
+        if ops[k]["op"] == "twin":
+            c = copy.deepcopy(case)
+            c["ops"] = [o for j, o in enumerate(c["ops"]) if j != k and o.get("tw") != ops[k]["out"]]
+            yield c
+    # one in-place call
+    for k in range(len(ops) - 1, ns - 1, -1):
+        if "tw" in ops[k]:
+            c = copy.deepcopy(case)
+            del c["ops"][k]
+            yield c
+    # a selection nothing refers to any more / a link of the chain (its successor then selects from its source)
+    for k in range(len(ops) - 1, ns - 1, -1):
+        if ops[k]["op"] == "sel":
+            if not used(ops[k]["out"], k + 1):
+                c = copy.deepcopy(case)
+                del c["ops"][k]
+                yield c
+            else:
+                nxt = [j for j in range(k + 1, len(ops)) if ops[j]["op"] == "sel" and ops[j]["h"] == ops[k]["out"]]
+                others = [j for j in range(k + 1, len(ops)) if ops[j]["op"] != "sel" and (ops[j].get("h") == ops[k]["out"])]
+                if nxt and not others:
+                    c = copy.deepcopy(case)
+                    for j in nxt:
+                        c["ops"][j]["h"] = ops[k]["h"]
+                    del c["ops"][k]
+                    yield c
+    # single values: of a fill_n after the selection, of the data the source was built from
+    for k, op in enumerate(ops):
+        if len(op.get("places") or []) > 1:
+            for j in range(len(op["places"])):
+                c = copy.deepcopy(case)
+                del c["ops"][k]["places"][j]
+                if c["ops"][k].get("ws") is not None:
+                    del c["ops"][k]["ws"][j]
+                yield c
+        for key in ("vs", "rows"):
+            if k < ns and len(op.get(key) or []) > 0 and "places" not in op:
+                for j in range(len(op[key])):
+                    c = copy.deepcopy(case)
+                    del c["ops"][k][key][j]
+                    if c["ops"][k].get("ws") is not None:
+                        del c["ops"][k]["ws"][j]
+                    yield c
+    # a second value outside in one fill
+    for k, op in enumerate(ops):
+        if len((op.get("place") or {}).get("out") or []) > 1:
+            for j in range(len(op["place"]["out"])):
+                c = copy.deepcopy(case)
+                del c["ops"][k]["place"]["out"][j]
+                yield c
+
+
+def after_neighbours(case):
+    """after a difference between model and implementation: the same history followed, for every register in turn, by
+    values beyond each axis (and a few other in-place calls), each against a fresh twin"""
+    ops = case["ops"]
+    regs = sorted({o["out"] for o in ops if o.get("out") is not None and o["op"] != "twin"})
+    free = 1 + max([o.get("out") or 0 for o in ops] + [o.get("h") or 0 for o in ops])
+    for r in regs:
+        for a in range(3):
+            for side in ("right", "left"):
+                c = copy.deepcopy(case)
+                c["ops"].append({"op": "twin", "h": r, "out": free, "via": "arrays"})
+                c["ops"].append({"op": "fill", "h": r, "tw": free, "w": "1", "wk": "pyint", "default_w": True,
+                                 "place": {"out": [{"axis": a, "side": side, "j": 5}], "in": [0, 0, 0, 0]}})
+                yield c
+        for extra in ({"op": "imul", "c": "3", "k": "pyint"}, {"op": "merge", "amount": 2, "inplace": True, "axis": None},
+                      {"op": "set_dtype", "dtype": "float64"}):
+            c = copy.deepcopy(case)
+            c["ops"].append({"op": "twin", "h": r, "out": free, "via": "arrays"})
+            c["ops"].append(dict(extra, h=r, tw=free))
+            yield c
 
 
 PROP = C11()
